@@ -72,6 +72,15 @@ def l192(kind):
     elif kind == 'longer':
         r, Lr = rope.blob('extra', 1, None)
         q = p + r
+    elif kind == 'derived':
+        # a value the implementation itself computes on the way: the SHA-256 pre-hash of the right password
+        d = auth.hashes.Hash(auth.hashes.SHA256(), backend=auth.default_backend())
+        d.update(p)
+        q = d.finalize()
+        if core._rp() is None:
+            core.assume(Not(rope.rope_eq(q, p)))          # a password that is its own digest is the right password
+        elif q == p:
+            return
     else:
         i = core.symint('common_prefix', 0, None)
         core.assume(i < L)
@@ -96,9 +105,9 @@ def replay_l192(cfg, m):
     return generic_replay(l192, [_s.modules[__name__]])(cfg, m)
 
 
-R.add('L19.2', l192, [dict(kind=k) for k in ('shorter', 'longer', 'differs')], replay=replay_l192,
+R.add('L19.2', l192, [dict(kind=k) for k in ('shorter', 'longer', 'differs', 'derived')], replay=replay_l192,
       desc='wrong password of every shape (proper prefix, proper extension, first differing byte at any offset with any tail, '
-           'lengths unbounded): result is False unless SHA-256/scrypt collide',
+           'lengths unbounded) and the implementation\'s own intermediate value sha256(p): result is False unless SHA-256/scrypt collide',
       expect=['another password does not verify (given collision freedom of SHA-256 o scrypt)'],
       bounds='password and candidate lengths unbounded (symbolic); offset of the first difference unbounded')
 
